@@ -1,6 +1,7 @@
 import Qryn.LogQL.Sem
 import Qryn.Proofs.Like
 import Qryn.Proofs.Limit
+import Qryn.Proofs.StreamSelect
 /-! Helper lemmas for C07. -/
 namespace Qryn.Sql
 theorem like_contains (s v : Bytes) : like s (37 :: likeEscape v ++ [37]) = true ↔ v <:+: s :=
@@ -13,8 +14,8 @@ open Qryn Qryn.Sql
 theorem streamSelect_eval (o : Oracles) (c : Ctx) (hn : c.namesOk) (d : LokiDb) (ms : List Matcher)
     (hm : ms.length ≤ 63) (env : Env) (v : Val) :
     v ∈ firstCol (evalBody o (d.toDb c) env (streamSelect c ms)) ↔
-      ∃ fp, v = .int fp ∧ streamSelected o c d ms fp = true := by
-  sorry
+      ∃ fp, v = .int fp ∧ streamSelected o c d ms fp = true :=
+  streamSelect_eval' o c hn d ms hm env v
 
 theorem planLog_correct (o : Oracles) (c : Ctx) (hn : c.namesOk) (d : LokiDb) (q : LogQuery)
     (hlim : 0 ≤ c.limit) (hm : q.matchers.length ≤ 63) :
